@@ -841,4 +841,17 @@ Section Proofs.
     rewrite N.eqb_refl. eexists. split; [reflexivity|].
     rewrite data_of_set_id. unfold ChunkVerify.data_of, ChunkVerify.chunk_data. cbn [c_data set_data]. now rewrite Nb.
   Qed.
+
+  (* Chunks are values: what a chunk yields does not depend on the world, so the chunks of
+     earlier requests are still verified answers after any number of later requests. *)
+  Lemma held_chunks_sound s ids later w rs w' :
+    verifying s = true -> get_many s (ids ++ later) w = (rs, w') ->
+    Forall2 (fun i r => forall c, r = Ok c -> exists b, data_of c = Some b /\ H b = i)
+            ids (firstn (length ids) rs).
+  Proof.
+    intros V E. pose proof (get_many_sound s _ w rs w' V E) as F.
+    apply Forall2_app_inv_l in F as (l1 & l2 & F1 & _ & ->).
+    assert (L : length ids = length l1) by (clear - F1; induction F1; cbn; congruence).
+    rewrite L, firstn_app, firstn_all, Nat.sub_diag, firstn_O, app_nil_r. exact F1.
+  Qed.
 End Proofs.
